@@ -39,6 +39,7 @@ package http3
 //@   ensures [content-length] implies(result1 == nil, result0.ContentLength >= -1)
 //@   modifies *headerFields, elems(qpack.HeaderField)
 //@ loop parseHeaders #0
+//@   bodyensures [every-accepted-field-is-validated] calledinloop("validateHeaderFieldNameAndValue") == 1 && implies(!lastresultb("(HeaderField).IsPseudo"), calledinloop("validateRegularHeaderField") == 1)
 //@   invariant [budget-not-exceeded] sizeLimit >= 0
 //@   invariant [request-kind] implies(isRequest, hdr.Status == "")
 //@   invariant [response-kind] implies(!isRequest, hdr.Path == "" && hdr.Method == "" && hdr.Authority == "" && hdr.Protocol == "" && hdr.Scheme == "")
